@@ -94,4 +94,5 @@ func init() {
 	register(propC14{})
 	register(propC12{})
 	register(propC09{})
+	register(propC04{})
 }
